@@ -838,6 +838,8 @@ def main(run):
     # an almost stagnant gap (2e-5 kg/s: microgram-per-second cells): the flow is still split in proportion
     # to the cell areas and sums to the gap flow; every fully occupied 7-position loading
     low = [dict(x, part='p7low', gap_flow=2.0e-5) for x in c7 if x['n_asm'] == 7]
+    # and a thousand times less (cells of 1e-10 kg/s and below)
+    low += [dict(x, part='p7low', gap_flow=2.0e-8) for x in c7 if x['n_asm'] == 7]
     run.explore('p7low', low, run_case, budget_s=60, chunksize=64)
     run.explore('p19', c19, run_case, budget_s=120, chunksize=4)
     run.explore('p37', c37, run_case, budget_s=300, chunksize=1)
